@@ -351,7 +351,7 @@ impl System for WCfg {
             obs: util::hash64(&[&e.obs]),
             nontrivial: e.head_started || e.refq.len() >= 2,
             facts: e.facts,
-            impl_facts: 0,
+            impl_facts: 0, aux: 0
         }
     }
     fn trace(&self, path: &[WAct]) -> Value {
